@@ -1005,7 +1005,7 @@ func (l *Lowerer) lowerGlobalVar(v *parser.VarDecl) error {
 func (l *Lowerer) lowerGlobalVarInit(varName string, typeHandle ir.TypeHandle, init parser.Expr) (ir.ConstantHandle, error) {
 	lit, ok := init.(*parser.Literal)
 	if !ok {
-		return 0, fmt.Errorf("global var %s: non-literal initializers not yet supported", varName)
+		return l.lowerGlobalVarConstExprInit(varName, typeHandle, init)
 	}
 
 	scalarKind, bits, err := l.evalLiteral(lit)
@@ -1021,6 +1021,44 @@ func (l *Lowerer) lowerGlobalVarInit(varName string, typeHandle ir.TypeHandle, i
 		Name:  "", // unnamed: not emitted as a standalone constant
 		Type:  typeHandle,
 		Value: ir.ScalarValue{Bits: bits, Kind: scalarKind},
+	})
+	return constHandle, nil
+}
+
+// lowerGlobalVarConstExprInit evaluates a scalar constant-expression initializer
+// that is not a bare literal (a named constant, a negated literal, arithmetic on
+// constants) with the module-scope constant evaluators, so that the initializer
+// is not silently dropped.
+func (l *Lowerer) lowerGlobalVarConstExprInit(varName string, typeHandle ir.TypeHandle, init parser.Expr) (ir.ConstantHandle, error) {
+	if int(typeHandle) >= len(l.module.Types) {
+		return 0, fmt.Errorf("global var %s: initializer type is unknown", varName)
+	}
+	st, isScalar := l.module.Types[typeHandle].Inner.(ir.ScalarType)
+	if !isScalar {
+		return 0, fmt.Errorf("global var %s: non-literal initializers of this type are not supported", varName)
+	}
+	var kind ir.ScalarKind
+	var bits uint64
+	if k, val, err := l.evalConstantIntExpr(init); err == nil && st.Kind != ir.ScalarBool {
+		kind, bits = l.coerceScalarToType(k, uint64(val), typeHandle)
+	} else if fv, ferr := l.evalConstantFloatExpr(init); ferr == nil && st.Kind == ir.ScalarFloat {
+		kind = ir.ScalarFloat
+		switch st.Width {
+		case 2:
+			bits = uint64(float32ToHalf(float32(fv)))
+		case 8:
+			bits = math.Float64bits(fv)
+		default:
+			bits = uint64(math.Float32bits(float32(fv)))
+		}
+	} else {
+		return 0, fmt.Errorf("global var %s: initializer is not a constant scalar expression", varName)
+	}
+	constHandle := ir.ConstantHandle(len(l.module.Constants))
+	l.module.Constants = append(l.module.Constants, ir.Constant{
+		Name:  "", // unnamed: not emitted as a standalone constant
+		Type:  typeHandle,
+		Value: ir.ScalarValue{Bits: bits, Kind: kind},
 	})
 	return constHandle, nil
 }
